@@ -307,12 +307,12 @@ fn parse_directive_definition(
             .collect()
     })?
     .unwrap_or_default();
+    // the `repeatable` rule also matches the empty string
     let is_repeatable = parse_if_rule(&mut pairs, Rule::repeatable, |pair| {
         debug_assert_eq!(pair.as_rule(), Rule::repeatable);
-        Ok(())
-    })
-    .unwrap_or_default()
-    .is_some();
+        Ok(!pair.as_str().is_empty())
+    })?
+    .unwrap_or_default();
     let locations = {
         let pair = pairs.next().unwrap();
         debug_assert_eq!(pair.as_rule(), Rule::directive_locations);
